@@ -1,5 +1,6 @@
 import B6.Model.Avl
 import B6.Spec.SortedMap
+import B6.Spec.IterClauses
 import B6.Lemmas.Avl
 /-!
 # C07 — the AVL tree index stays a balanced sorted set across any edit history
@@ -8,13 +9,19 @@ Theorems about `B6.Model.Avl` (the model of `search/tree.go`) against `B6.Spec.S
 
 * `insert_inv`, `delete_inv` — one `Insert` / `DeleteKey` on a valid tree does not panic, keeps
   `Inv` (search-tree order ∧ stored balance = height difference ∧ |balance| ≤ 1) and changes the
-  in-order contents exactly like the sorted-map `insert` / `erase`.
-* `ops_inv` — lifted over every edit history starting from the empty list; includes `Len()`.
-* `height_le` — a valid tree with `n` values has `fib (height+2) ≤ n+1`… (see `bal_size`).
-* iterator theorems: see the second half of the file.
+  in-order contents exactly like the sorted-map `insert` / `erase`; `retrace_flags` — the "continue
+  retracing" flags are exactly "one level higher / lower".
+* `ops_inv` — lifted over every edit history from the empty list; includes `Len()`.
+* `next_spec`, `advance_spec` — what `Next` / `Advance` do from ANY iterator state over ANY current
+  tree (fresh, on a live node, on a node deleted since, on a node deleted and re-inserted, exhausted);
+  `iter_monotone`, `iter_no_deleted`, `iter_complete` — the three iterator clauses for one call.
+* `trace_ok` — for all interleavings of insert / delete / begin / Next / Advance the transcript is
+  accepted by `B6.Spec.IterClauses.clause` (the predicate the driver evaluates on the Go answers) and the
+  list stays a valid AVL tree; `trace_step` also shows no call panics; `sim_world` ties the step function
+  of the theorem to `World.step`, the one the driver runs.
 -/
 namespace B6.Props.C07
-open B6.Model.Avl B6.Model.Avl.Tree B6.Spec B6.Lemmas.Avl
+open B6.Model.Avl B6.Model.Avl.Tree B6.Spec B6.Lemmas.Avl B6.Spec.IterClauses
 
 variable {α : Type}
 
@@ -142,5 +149,951 @@ theorem ops_inv_empty (es : List (Edit α)) :
 example : (applyEdits (TreeList.empty : TreeList Nat)
     [.ins 3 0, .ins 1 1, .ins 2 2, .del 7, .ins 5 3, .ins 4 4, .del 3, .del 3]).map (fun t => (t.toList, t.length)) =
     some ([(1, 1), (2, 2), (4, 4), (5, 3)], 4) := by decide
+
+/-! ## iterators -/
+
+/-- `k` is the least key of the tree that satisfies `q` -/
+def Least (t : Tree α) (q : Nat → Prop) (k : Nat) : Prop :=
+  k ∈ keys t ∧ q k ∧ ∀ x ∈ keys t, q x → k ≤ x
+
+/-- no key of the tree satisfies `q` -/
+def NoneSat (t : Tree α) (q : Nat → Prop) : Prop := ∀ x ∈ keys t, ¬ q x
+
+theorem find_least {m : SortedMap.SMap α} (hs : SortedMap.Sorted m) (q : Nat → Bool) {e : Nat × α}
+    (h : m.find? (fun e => q e.1) = some e) :
+    e.1 ∈ SortedMap.keys m ∧ q e.1 = true ∧ ∀ x ∈ SortedMap.keys m, q x = true → e.1 ≤ x := by
+  induction m with
+  | nil => simp at h
+  | cons a m ih =>
+    simp only [SortedMap.Sorted, SortedMap.keys, List.map_cons, List.pairwise_cons] at hs
+    obtain ⟨h1, h2⟩ := hs
+    rw [List.find?_cons] at h
+    by_cases c : q a.1 = true
+    · simp [c] at h; subst h
+      refine ⟨by simp [SortedMap.keys], c, ?_⟩
+      intro x hx _
+      simp only [SortedMap.keys, List.map_cons, List.mem_cons] at hx
+      rcases hx with rfl | hx
+      · exact Nat.le_refl _
+      · exact Nat.le_of_lt (h1 x hx)
+    · simp [c] at h
+      obtain ⟨i1, i2, i3⟩ := ih h2 h
+      refine ⟨by simp only [SortedMap.keys, List.map_cons, List.mem_cons]; exact Or.inr i1, i2, ?_⟩
+      intro x hx hq
+      simp only [SortedMap.keys, List.map_cons, List.mem_cons] at hx
+      rcases hx with rfl | hx
+      · exact absurd hq c
+      · exact i3 x hx hq
+
+theorem find_noneSat {m : SortedMap.SMap α} (q : Nat → Bool)
+    (h : m.find? (fun e => q e.1) = none) : ∀ x ∈ SortedMap.keys m, q x = false := by
+  rw [List.find?_eq_none] at h
+  intro x hx
+  simp only [SortedMap.keys, List.mem_map] at hx
+  obtain ⟨e, he, rfl⟩ := hx
+  simpa using h e he
+
+theorem keys_toList (t : Tree α) : SortedMap.keys (toList t) = keys t := (keys_eq t).symm
+
+theorem succ_least {t : Tree α} (hb : Bst t) {c k' : Nat} {p' : α} (h : t.succ c = some (k', p')) :
+    Least t (fun x => c < x) k' := by
+  rw [succ_eq t c hb] at h
+  have := find_least ((bst_iff_sorted t).1 hb) (fun x => decide (c < x)) h
+  simpa [Least, keys_toList] using this
+
+theorem succ_none {t : Tree α} (hb : Bst t) {c : Nat} (h : t.succ c = none) :
+    NoneSat t (fun x => c < x) := by
+  rw [succ_eq t c hb] at h
+  have := find_noneSat (fun x => decide (c < x)) h
+  simpa [NoneSat, keys_toList] using this
+
+theorem lb_least {t : Tree α} (hb : Bst t) {c k' : Nat} {p' : α} (h : t.lowerBound c = some (k', p')) :
+    Least t (fun x => c ≤ x) k' := by
+  rw [lowerBound_eq t c hb] at h
+  have := find_least ((bst_iff_sorted t).1 hb) (fun x => decide (c ≤ x)) h
+  simpa [Least, keys_toList] using this
+
+theorem lb_none {t : Tree α} (hb : Bst t) {c : Nat} (h : t.lowerBound c = none) :
+    NoneSat t (fun x => c ≤ x) := by
+  rw [lowerBound_eq t c hb] at h
+  have := find_noneSat (fun x => decide (c ≤ x)) h
+  simpa [NoneSat, keys_toList] using this
+
+theorem min_least {t : Tree α} (hb : Bst t) {k' : Nat} {p' : α} (h : t.min = some (k', p')) :
+    Least t (fun _ => True) k' := by
+  rw [min_eq] at h
+  have hs := (bst_iff_sorted t).1 hb
+  have : (toList t).find? (fun e => (fun _ => true) e.1) = some (k', p') := by
+    cases hm : toList t with
+    | nil => simp [hm] at h
+    | cons a m => simp [hm] at h; simp [h]
+  have := find_least hs (fun _ => true) this
+  simpa [Least, keys_toList] using this
+
+theorem min_none {t : Tree α} (h : t.min = none) : keys t = [] := by
+  rw [min_eq] at h
+  rw [keys_eq]
+  cases hm : toList t with
+  | nil => rfl
+  | cons a m => simp [hm] at h
+
+/-- the model-side validity of an iterator state w.r.t. the current tree: an iterator that has not
+started holds no node; a node not marked deleted is in the tree -/
+def IterWF (t : Tree α) (it : Iter) : Prop :=
+  (it.started = false → it.node = none ∧ it.done = false) ∧ (∀ c, it.node = some (c, false) → c ∈ keys t)
+
+/-- key under the iterator = the last key it returned -/
+def pos (it : Iter) : Option Nat := it.node.map (·.1)
+
+def GtPos (c : Option Nat) (x : Nat) : Prop := ∀ c', c = some c' → c' < x
+def GePos (c : Option Nat) (x : Nat) : Prop := ∀ c', c = some c' → c' ≤ x
+
+/-- the call returned true and stands on the live node with key `k'` -/
+def Landed (r : Iter × Bool) (k' : Nat) : Prop :=
+  r.2 = true ∧ r.1.node = some (k', false) ∧ r.1.started = true
+
+/-- the call returned false and the iterator is finished for `Next` -/
+def Failed (r : Iter × Bool) : Prop :=
+  r.2 = false ∧ r.1.started = true ∧ (r.1.node = none ∨ r.1.done = true)
+
+theorem start_spec (t : Tree α) (it : Iter) (hb : Bst t) :
+    (∃ k', Landed (it.start t) k' ∧ (it.start t).1.done = it.done ∧ Least t (fun _ => True) k') ∨
+    ((it.start t).2 = false ∧ (it.start t).1.node = none ∧ (it.start t).1.started = true ∧
+      (it.start t).1.done = it.done ∧ keys t = []) := by
+  unfold Iter.start
+  cases hm : t.min with
+  | none => exact Or.inr ⟨rfl, rfl, rfl, rfl, min_none hm⟩
+  | some m =>
+    obtain ⟨k', p'⟩ := m
+    exact Or.inl ⟨k', ⟨rfl, rfl, rfl⟩, rfl, min_least hb hm⟩
+
+theorem advanceLive_spec (t : Tree α) (it : Iter) (key c : Nat) (hb : Bst t)
+    (hn : it.node = some (c, false)) (hc : c ∈ keys t) (hs : it.started = true) :
+    (∃ k', Landed (it.advanceLive t key) k' ∧ (it.advanceLive t key).1.done = it.done ∧
+        Least t (fun x => c ≤ x ∧ key ≤ x) k') ∨
+    ((it.advanceLive t key).2 = false ∧ (it.advanceLive t key).1.node = none ∧
+      (it.advanceLive t key).1.done = true ∧ (it.advanceLive t key).1.started = true ∧
+      NoneSat t (fun x => c ≤ x ∧ key ≤ x)) := by
+  unfold Iter.advanceLive
+  simp only [hn]
+  by_cases c1 : c < key
+  · rw [if_pos c1]
+    cases hl : t.lowerBound key with
+    | none =>
+      refine Or.inr ⟨rfl, rfl, rfl, hs, ?_⟩
+      intro x hx ⟨_, h2⟩
+      exact lb_none hb hl x hx h2
+    | some m =>
+      obtain ⟨k', p'⟩ := m
+      obtain ⟨l1, l2, l3⟩ := lb_least hb hl
+      refine Or.inl ⟨k', ⟨rfl, rfl, hs⟩, rfl, l1, ⟨by omega, l2⟩, ?_⟩
+      intro x hx ⟨_, h2⟩
+      exact l3 x hx h2
+  · rw [if_neg c1]
+    refine Or.inl ⟨c, ⟨rfl, hn, hs⟩, rfl, hc, ⟨Nat.le_refl _, by omega⟩, ?_⟩
+    intro x _ ⟨h1, _⟩
+    exact h1
+
+theorem advanceStarted_spec (t : Tree α) (it : Iter) (key : Nat) (hb : Bst t) (hw : IterWF t it)
+    (hs : it.started = true) (hn : it.node ≠ none) :
+    (∃ k', Landed (it.advanceStarted t key) k' ∧ (it.advanceStarted t key).1.done = it.done ∧
+        Least t (fun x => GePos (pos it) x ∧ key ≤ x) k') ∨
+    (Failed (it.advanceStarted t key) ∧ (it.advanceStarted t key).1.node = none ∧
+      NoneSat t (fun x => GePos (pos it) x ∧ key ≤ x)) := by
+  obtain ⟨st, nd, dn⟩ := it
+  simp only at hs hn
+  subst hs
+  unfold Iter.advanceStarted
+  cases nd with
+  | none => exact absurd rfl hn
+  | some nd =>
+    obtain ⟨c, d⟩ := nd
+    have hnode : (⟨true, some (c, d), dn⟩ : Iter).node = some (c, d) := rfl
+    have hpos : pos (⟨true, some (c, d), dn⟩ : Iter) = some c := by simp [pos]
+    have gp : ∀ x, GePos (pos (⟨true, some (c, d), dn⟩ : Iter)) x ↔ c ≤ x := by
+      intro x; rw [hpos]; simp [GePos]
+    cases d with
+    | false =>
+      simp only
+      rcases advanceLive_spec t _ key c hb hnode (hw.2 c hnode) rfl with ⟨k', hl, hd, l1, l2, l3⟩ | ⟨f1, f2, f3, f4, f5⟩
+      · refine Or.inl ⟨k', hl, hd, l1, ⟨(gp k').2 l2.1, l2.2⟩, ?_⟩
+        intro x hx ⟨h1, h2⟩
+        exact l3 x hx ⟨(gp x).1 h1, h2⟩
+      · refine Or.inr ⟨⟨f1, f4, Or.inl f2⟩, f2, ?_⟩
+        intro x hx ⟨h1, h2⟩
+        exact f5 x hx ⟨(gp x).1 h1, h2⟩
+    | true =>
+      simp only
+      rcases start_spec t ⟨false, some (c, true), dn⟩ hb with ⟨k0, ⟨s1, s2, s3⟩, sd, m1, _, m3⟩ | ⟨f1, f2, f3, f4, f5⟩
+      · -- restarted on the minimum k0
+        cases hst : Iter.start t ⟨false, some (c, true), dn⟩ with
+        | mk it1 ok1 =>
+          rw [hst] at s1 s2 s3 sd
+          simp only at s1 s2 s3 sd
+          subst s1
+          simp only
+          rcases advanceLive_spec t it1 c k0 hb s2 m1 s3 with ⟨k1, ⟨a1, a2, a3⟩, ad, l1, l2, l3⟩ | ⟨g1, g2, g3, g4, g5⟩
+          · cases hal : Iter.advanceLive t it1 c with
+            | mk it2 ok2 =>
+              rw [hal] at a1 a2 a3 ad
+              simp only at a1 a2 a3 ad
+              subst a1
+              simp only
+              rcases advanceLive_spec t it2 key k1 hb a2 l1 a3 with ⟨k2, hl2, bd, n1, n2, n3⟩ | ⟨e1, e2, e3, e4, e5⟩
+              · refine Or.inl ⟨k2, hl2, by rw [bd, ad, sd], n1, ⟨(gp k2).2 (by omega), n2.2⟩, ?_⟩
+                intro x hx ⟨h1, h2⟩
+                have hk1 : k1 ≤ x := l3 x hx ⟨m3 x hx trivial, (gp x).1 h1⟩
+                exact n3 x hx ⟨hk1, h2⟩
+              · refine Or.inr ⟨⟨e1, e4, Or.inl e2⟩, e2, ?_⟩
+                intro x hx ⟨h1, h2⟩
+                have hk1 : k1 ≤ x := l3 x hx ⟨m3 x hx trivial, (gp x).1 h1⟩
+                exact e5 x hx ⟨hk1, h2⟩
+          · cases hal : Iter.advanceLive t it1 c with
+            | mk it2 ok2 =>
+              rw [hal] at g1 g2 g3 g4
+              simp only at g1 g2 g3 g4
+              subst g1
+              simp only
+              refine Or.inr ⟨⟨rfl, g4, Or.inl g2⟩, g2, ?_⟩
+              intro x hx ⟨h1, _⟩
+              exact g5 x hx ⟨m3 x hx trivial, (gp x).1 h1⟩
+      · cases hst : Iter.start t ⟨false, some (c, true), dn⟩ with
+        | mk it1 ok1 =>
+          rw [hst] at f1 f2 f3
+          simp only at f1 f2 f3
+          subst f1
+          simp only
+          refine Or.inr ⟨⟨rfl, f3, Or.inl f2⟩, f2, ?_⟩
+          intro x hx
+          rw [f5] at hx; simp at hx
+
+theorem landed_wf {t : Tree α} {r : Iter × Bool} {k' : Nat} (h : Landed r k') (hk : k' ∈ keys t) :
+    IterWF t r.1 := by
+  obtain ⟨_, h2, h3⟩ := h
+  refine ⟨fun hs => (by rw [h3] at hs; cases hs), ?_⟩
+  intro c hc
+  rw [h2] at hc
+  simp at hc
+  exact hc ▸ hk
+
+/-- `Advance(key)` on an iterator whose `started` flag is off (a fresh iterator, or the restart of an
+iterator whose node was deleted): whatever node it held, it ends on the least key ≥ `key`. -/
+theorem restart_spec (t : Tree α) (nd : Option (Nat × Bool)) (dn : Bool) (key : Nat) (hb : Bst t) :
+    (∃ k', Landed (Iter.advance t ⟨false, nd, dn⟩ key) k' ∧ (Iter.advance t ⟨false, nd, dn⟩ key).1.done = dn ∧
+        Least t (fun x => key ≤ x) k') ∨
+    (Failed (Iter.advance t ⟨false, nd, dn⟩ key) ∧ (Iter.advance t ⟨false, nd, dn⟩ key).1.node = none ∧
+      NoneSat t (fun x => key ≤ x)) := by
+  unfold Iter.advance
+  simp only [Bool.false_eq_true, if_false]
+  rcases start_spec t ⟨false, nd, dn⟩ hb with ⟨k0, ⟨s1, s2, s3⟩, sd, m1, _, m3⟩ | ⟨f1, f2, f3, f4, f5⟩
+  · cases hst : Iter.start t ⟨false, nd, dn⟩ with
+    | mk it1 ok1 =>
+      rw [hst] at s1 s2 s3 sd
+      simp only at s1 s2 s3 sd
+      subst s1
+      simp only
+      have hw1 : IterWF t it1 := landed_wf (r := (it1, true)) ⟨rfl, s2, s3⟩ m1
+      have hp : pos it1 = some k0 := by simp [pos, s2]
+      rcases advanceStarted_spec t it1 key hb hw1 s3 (by rw [s2]; simp) with ⟨k', hl, hd, l1, l2, l3⟩ | ⟨g1, g2, g3⟩
+      · refine Or.inl ⟨k', hl, by rw [hd, sd], l1, l2.2, ?_⟩
+        intro x hx h2
+        refine l3 x hx ⟨?_, h2⟩
+        rw [hp]; intro c' hc'; cases hc'; exact m3 x hx trivial
+      · refine Or.inr ⟨g1, g2, ?_⟩
+        intro x hx h2
+        refine g3 x hx ⟨?_, h2⟩
+        rw [hp]; intro c' hc'; cases hc'; exact m3 x hx trivial
+  · cases hst : Iter.start t ⟨false, nd, dn⟩ with
+    | mk it1 ok1 =>
+      rw [hst] at f1 f2 f3
+      simp only at f1 f2 f3
+      subst f1
+      simp only
+      refine Or.inr ⟨⟨rfl, f3, Or.inl f2⟩, f2, ?_⟩
+      intro x hx
+      rw [f5] at hx; simp at hx
+
+/-- **`Advance(key)`**: from any iterator that has not failed, `Advance` ends on the least key of the
+current tree that is ≥ `key` and ≥ the key it stood on (staying put when that key is still there),
+or returns false when there is no such key. -/
+theorem advance_spec (t : Tree α) (it : Iter) (key : Nat) (hb : Bst t) (hw : IterWF t it)
+    (hn : it.started = true → it.node ≠ none) :
+    (∃ k', Landed (it.advance t key) k' ∧ (it.advance t key).1.done = it.done ∧
+        Least t (fun x => GePos (pos it) x ∧ key ≤ x) k') ∨
+    (Failed (it.advance t key) ∧ (it.advance t key).1.node = none ∧
+      NoneSat t (fun x => GePos (pos it) x ∧ key ≤ x)) := by
+  obtain ⟨st, nd, dn⟩ := it
+  cases st with
+  | true =>
+    have : Iter.advance t ⟨true, nd, dn⟩ key = Iter.advanceStarted t ⟨true, nd, dn⟩ key := by
+      simp [Iter.advance]
+    rw [this]
+    exact advanceStarted_spec t _ key hb hw rfl (hn rfl)
+  | false =>
+    have hnd : nd = none := (hw.1 rfl).1
+    subst hnd
+    have gp : ∀ x, (GePos (pos (⟨false, none, dn⟩ : Iter)) x ∧ key ≤ x) ↔ key ≤ x := by
+      intro x; simp [pos, GePos]
+    rcases restart_spec t none dn key hb with ⟨k', hl, hd, l1, l2, l3⟩ | ⟨g1, g2, g3⟩
+    · exact Or.inl ⟨k', hl, hd, l1, (gp k').2 l2, fun x hx h => l3 x hx ((gp x).1 h)⟩
+    · exact Or.inr ⟨g1, g2, fun x hx h => g3 x hx ((gp x).1 h)⟩
+
+theorem nextLive_spec (t : Tree α) (it : Iter) (c : Nat) (hb : Bst t)
+    (hnode : it.node = some (c, false)) (hc : c ∈ keys t) (hs : it.started = true) (hd : it.done = false) :
+    (∃ k', Landed (it.nextLive t c) k' ∧ (it.nextLive t c).1.done = false ∧ Least t (fun x => c < x) k') ∨
+    (Failed (it.nextLive t c) ∧ IterWF t (it.nextLive t c).1 ∧ NoneSat t (fun x => c < x)) := by
+  unfold Iter.nextLive
+  cases hsu : t.succ c with
+  | none =>
+    refine Or.inr ⟨⟨rfl, hs, Or.inr rfl⟩, ⟨fun h => ?_, ?_⟩, succ_none hb hsu⟩
+    · simp only at h; rw [hs] at h; cases h
+    · intro c' hc'
+      simp only at hc'
+      rw [hnode] at hc'; simp at hc'; exact hc' ▸ hc
+  | some m =>
+    obtain ⟨k', p'⟩ := m
+    exact Or.inl ⟨k', ⟨rfl, rfl, hs⟩, hd, succ_least hb hsu⟩
+
+/-- **`Next()`**: from any iterator that has not finished, `Next` ends on the least key of the current
+tree greater than the key it stood on (the least key at all for a fresh iterator) — whether that node is
+still in the tree, was deleted, or was deleted and re-inserted — or returns false when there is none. -/
+theorem next_spec (t : Tree α) (it : Iter) (hb : Bst t) (hw : IterWF t it)
+    (hd : it.done = false) (hn : it.started = true → it.node ≠ none) :
+    (∃ k', Landed (it.next t) k' ∧ (it.next t).1.done = false ∧ Least t (GtPos (pos it)) k') ∨
+    (Failed (it.next t) ∧ IterWF t (it.next t).1 ∧ NoneSat t (GtPos (pos it))) := by
+  obtain ⟨st, nd, dn⟩ := it
+  simp only at hd
+  subst hd
+  cases st with
+  | false =>
+    have hnd : nd = none := (hw.1 rfl).1
+    subst hnd
+    have e : Iter.next t ⟨false, none, false⟩ = Iter.start t ⟨false, none, false⟩ := by
+      simp [Iter.next]
+    rw [e]
+    rcases start_spec t ⟨false, none, false⟩ hb with ⟨k0, hl, sd, m1, _, m3⟩ | ⟨f1, f2, f3, f4, f5⟩
+    · refine Or.inl ⟨k0, hl, sd, m1, ?_, ?_⟩
+      · intro c' hc'; simp [pos] at hc'
+      · intro x hx _; exact m3 x hx trivial
+    · refine Or.inr ⟨⟨f1, f3, Or.inl f2⟩, ⟨fun h => (by rw [f3] at h; cases h), ?_⟩, ?_⟩
+      · intro c hc; rw [f2] at hc; cases hc
+      · intro x hx; rw [f5] at hx; simp at hx
+  | true =>
+    cases nd with
+    | none => exact absurd rfl (hn rfl)
+    | some nd =>
+      obtain ⟨c, d⟩ := nd
+      have gp : ∀ x, GtPos (pos (⟨true, some (c, d), false⟩ : Iter)) x ↔ c < x := by
+        intro x; simp [pos, GtPos]
+      cases d with
+      | false =>
+        have e : Iter.next t ⟨true, some (c, false), false⟩ = Iter.nextLive t ⟨true, some (c, false), false⟩ c := by
+          simp [Iter.next]
+        rw [e]
+        rcases nextLive_spec t ⟨true, some (c, false), false⟩ c hb rfl (hw.2 c rfl) rfl rfl with
+          ⟨k', hl, hd', l1, l2, l3⟩ | ⟨g1, g2, g3⟩
+        · exact Or.inl ⟨k', hl, hd', l1, (gp k').2 l2, fun x hx h => l3 x hx ((gp x).1 h)⟩
+        · exact Or.inr ⟨g1, g2, fun x hx h => g3 x hx ((gp x).1 h)⟩
+      | true =>
+        have e : Iter.next t ⟨true, some (c, true), false⟩ =
+            (match Iter.advance t ⟨false, some (c, true), false⟩ c with
+              | (it1, false) => (it1, false)
+              | (it1, true) =>
+                match it1.node with
+                | some (c', _) => if c' = c then it1.nextLive t c else (it1, true)
+                | none => (it1, true)) := rfl
+        rw [e]
+        rcases restart_spec t (some (c, true)) false c hb with ⟨k', ⟨a1, a2, a3⟩, ad, l1, l2, l3⟩ | ⟨⟨g1, g2, g3⟩, g4, g5⟩
+        · cases hadv : Iter.advance t ⟨false, some (c, true), false⟩ c with
+          | mk it1 ok1 =>
+            rw [hadv] at a1 a2 a3 ad
+            simp only at a1 a2 a3 ad
+            subst a1
+            simp only [a2]
+            by_cases hk : k' = c
+            · subst hk
+              simp only [if_true]
+              rcases nextLive_spec t it1 k' hb a2 l1 a3 ad with ⟨k2, hl, hd', n1, n2, n3⟩ | ⟨e1, e2, e3⟩
+              · exact Or.inl ⟨k2, hl, hd', n1, (gp k2).2 n2, fun x hx h => n3 x hx ((gp x).1 h)⟩
+              · exact Or.inr ⟨e1, e2, fun x hx h => e3 x hx ((gp x).1 h)⟩
+            · simp only [hk, if_false]
+              refine Or.inl ⟨k', ⟨rfl, a2, a3⟩, ad, l1, (gp k').2 (by omega), ?_⟩
+              intro x hx h
+              exact l3 x hx (Nat.le_of_lt ((gp x).1 h))
+        · cases hadv : Iter.advance t ⟨false, some (c, true), false⟩ c with
+          | mk it1 ok1 =>
+            rw [hadv] at g1 g2 g3 g4
+            simp only at g1 g2 g3 g4
+            subst g1
+            simp only
+            refine Or.inr ⟨⟨rfl, g2, Or.inl g4⟩, ⟨fun h => (by rw [g2] at h; cases h), ?_⟩, ?_⟩
+            · intro c' hc'; rw [g4] at hc'; cases hc'
+            · intro x hx h
+              exact g5 x hx (Nat.le_of_lt ((gp x).1 h))
+
+/-- the branch of the model's `Next` marked unreachable is unreachable: a successful `Advance` stands on a node -/
+theorem advance_ok_node (t : Tree α) (nd : Option (Nat × Bool)) (dn : Bool) (key : Nat) (hb : Bst t)
+    (h : (Iter.advance t ⟨false, nd, dn⟩ key).2 = true) :
+    (Iter.advance t ⟨false, nd, dn⟩ key).1.node.isSome = true := by
+  rcases restart_spec t nd dn key hb with ⟨k', ⟨_, a2, _⟩, _⟩ | ⟨⟨g1, _⟩, _⟩
+  · simp [a2]
+  · rw [g1] at h; cases h
+
+theorem next_wf (t : Tree α) (it : Iter) (hb : Bst t) (hw : IterWF t it) : IterWF t (it.next t).1 := by
+  by_cases hd : it.done = false
+  · by_cases hn : it.started = true → it.node ≠ none
+    · rcases next_spec t it hb hw hd hn with ⟨k', hl, _, l1, _⟩ | ⟨_, g2, _⟩
+      · exact landed_wf hl l1
+      · exact g2
+    · have hs : it.started = true := by
+        cases h : it.started with
+        | true => rfl
+        | false => exact absurd (fun h' => by rw [h] at h'; cases h') hn
+      have hnone : it.node = none := by
+        cases h : it.node with
+        | none => rfl
+        | some nd => exact absurd (fun _ => by rw [h]; simp) hn
+      have : it.next t = (it, false) := by simp [Iter.next, hs, hnone]
+      rw [this]; exact hw
+  · have hd' : it.done = true := by cases h : it.done <;> simp_all
+    have hs : it.started = true := by
+      cases h : it.started with
+      | true => rfl
+      | false => have := (hw.1 h).2; rw [hd'] at this; cases this
+    have : it.next t = (it, false) := by
+      cases hnode : it.node with
+      | none => simp [Iter.next, hs, hnode]
+      | some nd => simp [Iter.next, hs, hnode, hd']
+    rw [this]; exact hw
+
+theorem advance_wf (t : Tree α) (it : Iter) (key : Nat) (hb : Bst t) (hw : IterWF t it) :
+    IterWF t (it.advance t key).1 := by
+  by_cases hn : it.started = true → it.node ≠ none
+  · rcases advance_spec t it key hb hw hn with ⟨k', hl, _, l1, _⟩ | ⟨⟨_, g2, _⟩, g4, _⟩
+    · exact landed_wf hl l1
+    · exact ⟨fun h => (by rw [g2] at h; cases h), fun c hc => (by rw [g4] at hc; cases hc)⟩
+  · have hs : it.started = true := by
+      cases h : it.started with
+      | true => rfl
+      | false => exact absurd (fun h' => by rw [h] at h'; cases h') hn
+    have hnone : it.node = none := by
+      cases h : it.node with
+      | none => rfl
+      | some nd => exact absurd (fun _ => by rw [h]; simp) hn
+    have : it.advance t key = (it, false) := by simp [Iter.advance, Iter.advanceStarted, hs, hnone]
+    rw [this]; exact hw
+
+/-- a `Next` that returns true was made on an iterator that had not finished -/
+theorem next_true_pre (t : Tree α) (it : Iter) (h : (it.next t).2 = true) (hw : IterWF t it) :
+    it.done = false ∧ (it.started = true → it.node ≠ none) := by
+  obtain ⟨st, nd, dn⟩ := it
+  cases st with
+  | false => exact ⟨(hw.1 rfl).2, fun h => by cases h⟩
+  | true =>
+    cases nd with
+    | none => simp [Iter.next] at h
+    | some nd =>
+      cases dn with
+      | true => simp [Iter.next] at h
+      | false => exact ⟨rfl, fun _ => by simp⟩
+
+/-- **continues in order, never repeats**: a value returned by `Next` is strictly greater than the one
+the iterator stood on, whatever edits happened in between. -/
+theorem iter_monotone (t : Tree α) (it : Iter) (hb : Bst t) (hw : IterWF t it)
+    (h : (it.next t).2 = true) :
+    ∃ k', (it.next t).1.node = some (k', false) ∧ ∀ c, pos it = some c → c < k' := by
+  obtain ⟨hd, hn⟩ := next_true_pre t it h hw
+  rcases next_spec t it hb hw hd hn with ⟨k', ⟨_, a2, _⟩, _, _, l2, _⟩ | ⟨⟨g1, _⟩, _⟩
+  · exact ⟨k', a2, l2⟩
+  · rw [g1] at h; cases h
+
+/-- **never returns a value after it was deleted**: a value returned by `Next` is in the tree now. -/
+theorem iter_no_deleted (t : Tree α) (it : Iter) (hb : Bst t) (hw : IterWF t it)
+    (h : (it.next t).2 = true) :
+    ∃ k', (it.next t).1.node = some (k', false) ∧ k' ∈ keys t := by
+  obtain ⟨hd, hn⟩ := next_true_pre t it h hw
+  rcases next_spec t it hb hw hd hn with ⟨k', ⟨_, a2, _⟩, _, l1, _⟩ | ⟨⟨g1, _⟩, _⟩
+  · exact ⟨k', a2, l1⟩
+  · rw [g1] at h; cases h
+
+/-- **returns every value present**: `Next` skips no key of the current tree above the iterator's
+position, and it only gives up (first false) when no such key exists. -/
+theorem iter_complete (t : Tree α) (it : Iter) (hb : Bst t) (hw : IterWF t it)
+    (hd : it.done = false) (hn : it.started = true → it.node ≠ none) :
+    ((it.next t).2 = true → ∃ k', (it.next t).1.node = some (k', false) ∧
+        ∀ x ∈ keys t, GtPos (pos it) x → k' ≤ x) ∧
+    ((it.next t).2 = false → ∀ x ∈ keys t, ¬ GtPos (pos it) x) := by
+  rcases next_spec t it hb hw hd hn with ⟨k', ⟨a1, a2, _⟩, _, _, _, l3⟩ | ⟨⟨g1, _⟩, _, g3⟩
+  · exact ⟨fun _ => ⟨k', a2, l3⟩, fun h => by rw [a1] at h; cases h⟩
+  · exact ⟨fun h => (by rw [g1] at h; cases h), fun _ => g3⟩
+
+
+/-! ## whole histories with open iterators -/
+
+/-- A list, its open iterators, and next to each iterator the caller-side tracker of
+`B6.Spec.IterClauses` — what the C07 driver keeps per case. -/
+structure Sim (α : Type) where
+  list : TreeList α
+  its : List (Iter × Cur)
+
+/-- One call of the history: the model performs it, the tracker judges what the iterator call
+returned (`clause`) and is updated.  The list/iterator part is `World.step` (`sim_world`). -/
+def Sim.step (s : Sim α) : Op α → Option (Sim α × Option String)
+  | .ins k p =>
+    match s.list.insert k p with
+    | some l => some (⟨l, s.its⟩, none)
+    | none => none
+  | .del k =>
+    match s.list.delete k with
+    | some (l, found) =>
+      some (⟨l, s.its.map fun (it, c) => (if found then it.onDelete k else it, c.onDelete k)⟩, none)
+    | none => none
+  | .begin => some (⟨s.list, s.its ++ [((⟨false, none, false⟩ : Iter), Cur.begin (keys s.list.root))]⟩, none)
+  | .next i =>
+    match s.its[i]? with
+    | some (it, c) =>
+      let r := it.next s.list.root
+      let ret := if r.2 then r.1.node.map (·.1) else none
+      some (⟨s.list, s.its.set i (r.1, c.update ret)⟩, clause (keys s.list.root) c none ret)
+    | none => none
+  | .adv i k =>
+    match s.its[i]? with
+    | some (it, c) =>
+      let r := it.advance s.list.root k
+      let ret := if r.2 then r.1.node.map (·.1) else none
+      some (⟨s.list, s.its.set i (r.1, c.update ret)⟩, clause (keys s.list.root) c (some k) ret)
+    | none => none
+
+def Sim.run (s : Sim α) : List (Op α) → Option (Sim α × List (Option String))
+  | [] => some (s, [])
+  | op :: ops =>
+    match s.step op with
+    | none => none
+    | some (s', cl) =>
+      match Sim.run s' ops with
+      | none => none
+      | some (s'', cls) => some (s'', cl :: cls)
+
+def Sim.toWorld (s : Sim α) : World α := ⟨s.list, s.its.map (·.1)⟩
+
+/-- the tracker is in step with the model iterator -/
+def Rel (t : Tree α) (it : Iter) (c : Cur) : Prop :=
+  (∀ x ∈ c.owed, x ∈ keys t) ∧
+  (c.dead = false → it.done = false ∧ (it.started = true → it.node ≠ none) ∧ c.pos = pos it)
+
+def SimInv (s : Sim α) : Prop :=
+  WF s.list ∧ ∀ p ∈ s.its, IterWF s.list.root p.1 ∧ Rel s.list.root p.1 p.2
+
+theorem siminv_empty : SimInv (⟨TreeList.empty, []⟩ : Sim α) := ⟨wf_empty, by simp⟩
+
+theorem posLt_iff (c : Option Nat) (x : Nat) : posLt c x = true ↔ GtPos c x := by
+  cases c <;> simp [posLt, GtPos]
+
+theorem posLe_iff (c : Option Nat) (x : Nat) : posLe c x = true ↔ GePos c x := by
+  cases c <;> simp [posLe, GePos]
+
+theorem mem_keys_insert {m : SortedMap.SMap α} {k : Nat} {p : α} {x : Nat}
+    (h : x ∈ SortedMap.keys m) : x ∈ SortedMap.keys (SortedMap.insert m k p) := by
+  induction m with
+  | nil => simp [SortedMap.keys] at h
+  | cons a m ih =>
+    obtain ⟨a, ap⟩ := a
+    simp only [SortedMap.keys, List.map_cons, List.mem_cons] at h
+    unfold SortedMap.insert
+    split
+    · simp only [SortedMap.keys, List.map_cons, List.mem_cons]
+      rcases h with h | h
+      · exact Or.inl h
+      · exact Or.inr (ih h)
+    · split
+      · simp only [SortedMap.keys, List.map_cons, List.mem_cons]
+        rcases h with h | h
+        · exact Or.inl (by omega)
+        · exact Or.inr h
+      · simp only [SortedMap.keys, List.map_cons, List.mem_cons]
+        exact Or.inr h
+
+theorem mem_keys_erase {m : SortedMap.SMap α} {k x : Nat}
+    (h : x ∈ SortedMap.keys m) (hx : x ≠ k) : x ∈ SortedMap.keys (SortedMap.erase m k) := by
+  induction m with
+  | nil => simp [SortedMap.keys] at h
+  | cons a m ih =>
+    obtain ⟨a, ap⟩ := a
+    simp only [SortedMap.keys, List.map_cons, List.mem_cons] at h
+    unfold SortedMap.erase
+    split
+    · rcases h with h | h
+      · omega
+      · exact h
+    · simp only [SortedMap.keys, List.map_cons, List.mem_cons]
+      rcases h with h | h
+      · exact Or.inl h
+      · exact Or.inr (ih h)
+
+theorem gt_ge {c : Option Nat} {x : Nat} (h : GtPos c x) : GePos c x :=
+  fun c' hc => Nat.le_of_lt (h c' hc)
+
+theorem clause_dead (ks : List Nat) (c : Cur) (tg ret : Option Nat) (h : c.dead = true) :
+    clause ks c tg ret = none := by simp [clause, h]
+
+theorem clause_next_landed (ks : List Nat) (c : Cur) (k' : Nat)
+    (h1 : GtPos c.pos k') (h2 : k' ∈ ks) (h3 : ∀ x ∈ c.owed, x ∈ ks)
+    (h4 : ∀ x ∈ ks, GtPos c.pos x → k' ≤ x) : clause ks c none (some k') = none := by
+  unfold clause
+  split
+  · rfl
+  · have e1 : posLt c.pos k' = true := (posLt_iff _ _).2 h1
+    have e3 : c.owed.any (fun x => posLt c.pos x && decide (x < k')) = false := by
+      rw [List.any_eq_false]
+      intro x hx
+      simp only [Bool.and_eq_true, decide_eq_true_eq, not_and]
+      intro hp
+      have := h4 x (h3 x hx) ((posLt_iff _ _).1 hp)
+      omega
+    simp [e1, h2, e3]
+
+theorem clause_next_failed (ks : List Nat) (c : Cur)
+    (h3 : ∀ x ∈ c.owed, x ∈ ks) (h4 : ∀ x ∈ ks, ¬ GtPos c.pos x) : clause ks c none none = none := by
+  unfold clause
+  split
+  · rfl
+  · have e3 : c.owed.any (fun x => posLt c.pos x) = false := by
+      rw [List.any_eq_false]
+      intro x hx hp
+      exact h4 x (h3 x hx) ((posLt_iff _ _).1 hp)
+    simp [e3]
+
+theorem clause_adv_landed (ks : List Nat) (c : Cur) (key k' : Nat)
+    (h1 : GePos c.pos k' ∧ key ≤ k') (h2 : k' ∈ ks) (h3 : ∀ x ∈ c.owed, x ∈ ks)
+    (h4 : ∀ x ∈ ks, GePos c.pos x ∧ key ≤ x → k' ≤ x) : clause ks c (some key) (some k') = none := by
+  unfold clause
+  split
+  · rfl
+  · have e1 : posLe c.pos k' = true := (posLe_iff _ _).2 h1.1
+    have e3 : c.owed.any (fun x => posLt c.pos x && decide (key ≤ x) && decide (x < k')) = false := by
+      rw [List.any_eq_false]
+      intro x hx
+      simp only [Bool.and_eq_true, decide_eq_true_eq, not_and]
+      intro ⟨hp, hk⟩
+      have := h4 x (h3 x hx) ⟨gt_ge ((posLt_iff _ _).1 hp), hk⟩
+      omega
+    simp [e1, h2, e3, h1.2]
+
+theorem clause_adv_failed (ks : List Nat) (c : Cur) (key : Nat)
+    (h3 : ∀ x ∈ c.owed, x ∈ ks) (h4 : ∀ x ∈ ks, ¬ (GePos c.pos x ∧ key ≤ x)) :
+    clause ks c (some key) none = none := by
+  unfold clause
+  split
+  · rfl
+  · have e3 : c.owed.any (fun x => posLt c.pos x && decide (key ≤ x)) = false := by
+      rw [List.any_eq_false]
+      intro x hx
+      simp only [Bool.and_eq_true, decide_eq_true_eq, not_and]
+      intro hp hk
+      exact h4 x (h3 x hx) ⟨gt_ge ((posLt_iff _ _).1 hp), hk⟩
+    simp [e3]
+
+theorem keys_root_eq (l : TreeList α) : keys l.root = SortedMap.keys l.toList := by
+  rw [TreeList.toList, keys_toList]
+
+theorem onDelete_pos (it : Iter) (k : Nat) : pos (it.onDelete k) = pos it := by
+  unfold Iter.onDelete pos
+  split
+  · rename_i c hc
+    split <;> simp [hc]
+  · rfl
+
+theorem onDelete_fields (it : Iter) (k : Nat) :
+    (it.onDelete k).started = it.started ∧ (it.onDelete k).done = it.done ∧
+    ((it.onDelete k).node = none ↔ it.node = none) := by
+  unfold Iter.onDelete
+  split
+  · rename_i c hc
+    split <;> simp [hc]
+  · simp
+
+theorem onDelete_live (it : Iter) (k c : Nat) (h : (it.onDelete k).node = some (c, false)) :
+    it.node = some (c, false) ∧ c ≠ k := by
+  unfold Iter.onDelete at h
+  split at h
+  · rename_i c0 hc0
+    split at h
+    · simp at h
+    · rename_i hne
+      rw [hc0] at h; simp at h; subst h
+      exact ⟨hc0, hne⟩
+  · rename_i hne
+    refine ⟨h, ?_⟩
+    intro hk
+    exact hne c (hk ▸ h)
+
+theorem step_ins (s : Sim α) (k : Nat) (p : α) (h : SimInv s) :
+    ∃ l, s.list.insert k p = some l ∧ SimInv ⟨l, s.its⟩ := by
+  obtain ⟨hwf, hits⟩ := h
+  obtain ⟨l, e, hwf', hl⟩ := treelist_insert s.list k p hwf
+  refine ⟨l, e, hwf', ?_⟩
+  have sub : ∀ x ∈ keys s.list.root, x ∈ keys l.root := by
+    intro x hx
+    rw [keys_root_eq] at hx ⊢
+    rw [hl]; exact mem_keys_insert hx
+  intro q hq
+  obtain ⟨⟨w1, w2⟩, r1, r2⟩ := hits q hq
+  exact ⟨⟨w1, fun c hc => sub c (w2 c hc)⟩, fun x hx => sub x (r1 x hx), r2⟩
+
+theorem step_del (s : Sim α) (k : Nat) (h : SimInv s) :
+    ∃ l f, s.list.delete k = some (l, f) ∧
+      SimInv ⟨l, s.its.map fun (it, c) => (if f then it.onDelete k else it, c.onDelete k)⟩ := by
+  obtain ⟨hwf, hits⟩ := h
+  obtain ⟨l, f, e, hwf', hl, hf⟩ := treelist_delete s.list k hwf
+  refine ⟨l, f, e, hwf', ?_⟩
+  have sub : ∀ x ∈ keys s.list.root, x ≠ k → x ∈ keys l.root := by
+    intro x hx hne
+    rw [keys_root_eq] at hx ⊢
+    rw [hl]; exact mem_keys_erase hx hne
+  intro q hq
+  simp only [List.mem_map] at hq
+  obtain ⟨⟨it, c⟩, hmem, rfl⟩ := hq
+  obtain ⟨⟨w1, w2⟩, r1, r2⟩ := hits (it, c) hmem
+  simp only at w1 w2 r1 r2 ⊢
+  have hrel_owed : ∀ x ∈ (c.onDelete k).owed, x ∈ keys l.root := by
+    intro x hx
+    simp only [Cur.onDelete, List.mem_filter, bne_iff_ne, ne_eq] at hx
+    exact sub x (r1 x hx.1) hx.2
+  cases f with
+  | true =>
+    simp only [if_true]
+    obtain ⟨f1, f2, f3⟩ := onDelete_fields it k
+    refine ⟨⟨?_, ?_⟩, hrel_owed, ?_⟩
+    · intro hs
+      rw [f1] at hs
+      obtain ⟨n1, n2⟩ := w1 hs
+      exact ⟨f3.2 n1, by rw [f2]; exact n2⟩
+    · intro c' hc'
+      obtain ⟨g1, g2⟩ := onDelete_live it k c' hc'
+      exact sub c' (w2 c' g1) g2
+    · intro hd
+      obtain ⟨d1, d2, d3⟩ := r2 hd
+      refine ⟨by rw [f2]; exact d1, ?_, by rw [onDelete_pos]; exact d3⟩
+      intro hs hn
+      rw [f1] at hs
+      exact d2 hs (f3.1 hn)
+  | false =>
+    simp only [Bool.false_eq_true, if_false]
+    have hk : k ∉ keys s.list.root := fun hm => by have := hf.2 hm; cases this
+    refine ⟨⟨w1, ?_⟩, hrel_owed, r2⟩
+    intro c' hc'
+    have hm := w2 c' hc'
+    exact sub c' hm (fun e => hk (e ▸ hm))
+
+theorem step_begin (s : Sim α) (h : SimInv s) :
+    SimInv ⟨s.list, s.its ++ [((⟨false, none, false⟩ : Iter), Cur.begin (keys s.list.root))]⟩ := by
+  obtain ⟨hwf, hits⟩ := h
+  refine ⟨hwf, ?_⟩
+  intro q hq
+  simp only [List.mem_append, List.mem_singleton] at hq
+  rcases hq with hq | rfl
+  · exact hits q hq
+  · refine ⟨⟨fun _ => ⟨rfl, rfl⟩, fun c hc => by cases hc⟩, fun x hx => hx, ?_⟩
+    intro _
+    exact ⟨rfl, fun h => (by cases h), rfl⟩
+
+theorem update_owed (c : Cur) (ret : Option Nat) : (c.update ret).owed = c.owed := by
+  cases ret <;> rfl
+
+theorem update_alive {c : Cur} {ret : Option Nat} (h : (c.update ret).dead = false) :
+    c.dead = false ∧ ∃ k', ret = some k' ∧ (c.update ret).pos = some k' := by
+  cases ret with
+  | none => simp [Cur.update] at h
+  | some k' => exact ⟨h, k', rfl, rfl⟩
+
+/-- judgement and bookkeeping of one `Next` -/
+theorem judge_next (t : Tree α) (it : Iter) (c : Cur) (hb : Bst t) (hw : IterWF t it) (hr : Rel t it c) :
+    let r := it.next t
+    let ret := if r.2 then r.1.node.map (·.1) else none
+    clause (keys t) c none ret = none ∧ IterWF t r.1 ∧ Rel t r.1 (c.update ret) := by
+  intro r ret
+  have hwf' : IterWF t r.1 := next_wf t it hb hw
+  cases hdead : c.dead with
+  | true =>
+    refine ⟨clause_dead _ _ _ _ hdead, hwf', by rw [update_owed]; exact hr.1, ?_⟩
+    intro h
+    have := (update_alive h).1
+    rw [hdead] at this; cases this
+  | false =>
+    obtain ⟨hd, hn, hp⟩ := hr.2 hdead
+    rcases next_spec t it hb hw hd hn with ⟨k', ⟨a1, a2, a3⟩, ad, l1, l2, l3⟩ | ⟨⟨g1, g2, g3⟩, _, g5⟩
+    · have hret : ret = some k' := by
+        show (if r.2 then r.1.node.map (·.1) else none) = some k'
+        rw [a1, a2]; rfl
+      rw [hret]
+      refine ⟨clause_next_landed _ _ _ (hp ▸ l2) l1 hr.1 (fun x hx h => l3 x hx (hp ▸ h)), hwf', hr.1, ?_⟩
+      intro _
+      refine ⟨ad, fun _ => by rw [a2]; simp, ?_⟩
+      show some k' = Option.map (fun x => x.fst) r.1.node
+      show some k' = Option.map (fun x => x.fst) (Iter.next t it).1.node
+      rw [a2]; rfl
+    · have hret : ret = none := by
+        show (if r.2 then r.1.node.map (·.1) else none) = none
+        rw [g1]; rfl
+      rw [hret]
+      refine ⟨clause_next_failed _ _ hr.1 (fun x hx h => g5 x hx (hp ▸ h)), hwf', hr.1, ?_⟩
+      intro h
+      simp [Cur.update] at h
+
+/-- judgement and bookkeeping of one `Advance(key)` -/
+theorem judge_adv (t : Tree α) (it : Iter) (c : Cur) (key : Nat) (hb : Bst t) (hw : IterWF t it)
+    (hr : Rel t it c) :
+    let r := it.advance t key
+    let ret := if r.2 then r.1.node.map (·.1) else none
+    clause (keys t) c (some key) ret = none ∧ IterWF t r.1 ∧ Rel t r.1 (c.update ret) := by
+  intro r ret
+  have hwf' : IterWF t r.1 := advance_wf t it key hb hw
+  cases hdead : c.dead with
+  | true =>
+    refine ⟨clause_dead _ _ _ _ hdead, hwf', by rw [update_owed]; exact hr.1, ?_⟩
+    intro h
+    have := (update_alive h).1
+    rw [hdead] at this; cases this
+  | false =>
+    obtain ⟨hd, hn, hp⟩ := hr.2 hdead
+    rcases advance_spec t it key hb hw hn with ⟨k', ⟨a1, a2, a3⟩, ad, l1, l2, l3⟩ | ⟨⟨g1, g2, g3⟩, _, g5⟩
+    · have hret : ret = some k' := by
+        show (if r.2 then r.1.node.map (·.1) else none) = some k'
+        rw [a1, a2]; rfl
+      rw [hret]
+      refine ⟨clause_adv_landed _ _ _ _ (hp ▸ l2) l1 hr.1 (fun x hx h => l3 x hx (hp ▸ h)), hwf', hr.1, ?_⟩
+      intro _
+      refine ⟨by rw [ad]; exact hd, fun _ => by rw [a2]; simp, ?_⟩
+      show some k' = Option.map (fun x => x.fst) (Iter.advance t it key).1.node
+      rw [a2]; rfl
+    · have hret : ret = none := by
+        show (if r.2 then r.1.node.map (·.1) else none) = none
+        rw [g1]; rfl
+      rw [hret]
+      refine ⟨clause_adv_failed _ _ _ hr.1 (fun x hx h => g5 x hx (hp ▸ h)), hwf', hr.1, ?_⟩
+      intro h
+      simp [Cur.update] at h
+
+theorem siminv_set (s : Sim α) (i : Nat) (q : Iter × Cur) (h : SimInv s)
+    (hq : IterWF s.list.root q.1 ∧ Rel s.list.root q.1 q.2) : SimInv ⟨s.list, s.its.set i q⟩ := by
+  refine ⟨h.1, ?_⟩
+  intro p hp
+  rcases List.mem_or_eq_of_mem_set hp with hp | rfl
+  · exact h.2 p hp
+  · exact hq
+
+/-- **one step of any history**: from a state that satisfies the invariant, a call does not panic (the
+only `none` is an iterator index that was never opened), the invariant holds afterwards, and the
+iterator clauses of the property accept what the call returned. -/
+theorem trace_step (s : Sim α) (op : Op α) (h : SimInv s) :
+    (∀ s' cl, s.step op = some (s', cl) → SimInv s' ∧ cl = none) ∧
+    (s.step op = none → ∃ i, (op = .next i ∨ ∃ k, op = .adv i k) ∧ s.its.length ≤ i) := by
+  have hb : Bst s.list.root := h.1.1.1
+  cases op with
+  | ins k p =>
+    obtain ⟨l, e, hi⟩ := step_ins s k p h
+    simp only [Sim.step, e]
+    exact ⟨fun s' cl he => by simp at he; obtain ⟨rfl, rfl⟩ := he; exact ⟨hi, rfl⟩, fun he => by simp at he⟩
+  | del k =>
+    obtain ⟨l, f, e, hi⟩ := step_del s k h
+    simp only [Sim.step, e]
+    exact ⟨fun s' cl he => by simp at he; obtain ⟨rfl, rfl⟩ := he; exact ⟨hi, rfl⟩, fun he => by simp at he⟩
+  | begin =>
+    simp only [Sim.step]
+    exact ⟨fun s' cl he => by simp at he; obtain ⟨rfl, rfl⟩ := he; exact ⟨step_begin s h, rfl⟩,
+      fun he => by simp at he⟩
+  | next i =>
+    simp only [Sim.step]
+    cases hi : s.its[i]? with
+    | none =>
+      refine ⟨fun s' cl he => by simp at he, fun _ => ⟨i, Or.inl rfl, ?_⟩⟩
+      exact List.getElem?_eq_none_iff.1 hi
+    | some q =>
+      obtain ⟨it, c⟩ := q
+      have hm : (it, c) ∈ s.its := List.mem_of_getElem? hi
+      obtain ⟨hw, hr⟩ := h.2 _ hm
+      obtain ⟨j1, j2, j3⟩ := judge_next s.list.root it c hb hw hr
+      refine ⟨fun s' cl he => ?_, fun he => by simp at he⟩
+      simp only [Option.some.injEq, Prod.mk.injEq] at he
+      obtain ⟨rfl, rfl⟩ := he
+      exact ⟨siminv_set s i _ h ⟨j2, j3⟩, j1⟩
+  | adv i k =>
+    simp only [Sim.step]
+    cases hi : s.its[i]? with
+    | none =>
+      refine ⟨fun s' cl he => by simp at he, fun _ => ⟨i, Or.inr ⟨k, rfl⟩, ?_⟩⟩
+      exact List.getElem?_eq_none_iff.1 hi
+    | some q =>
+      obtain ⟨it, c⟩ := q
+      have hm : (it, c) ∈ s.its := List.mem_of_getElem? hi
+      obtain ⟨hw, hr⟩ := h.2 _ hm
+      obtain ⟨j1, j2, j3⟩ := judge_adv s.list.root it c k hb hw hr
+      refine ⟨fun s' cl he => ?_, fun he => by simp at he⟩
+      simp only [Option.some.injEq, Prod.mk.injEq] at he
+      obtain ⟨rfl, rfl⟩ := he
+      exact ⟨siminv_set s i _ h ⟨j2, j3⟩, j1⟩
+
+/-- **any history**: for ALL interleavings of insert, delete, re-insert, `begin`, `Next` and `Advance`,
+starting from the empty list (or any state satisfying the invariant), every iterator call is accepted
+by the property's iterator clauses — returned keys increase (strictly for `Next`), each returned key
+is in the list when it is returned, no key that has been in the list ever since the iterator was opened
+is skipped, and a false return leaves none of them behind — and the list stays a valid AVL tree. -/
+theorem trace_ok (s : Sim α) (ops : List (Op α)) (h : SimInv s) (s' : Sim α) (cls : List (Option String))
+    (hr : s.run ops = some (s', cls)) : SimInv s' ∧ ∀ cl ∈ cls, cl = none := by
+  induction ops generalizing s cls with
+  | nil =>
+    simp [Sim.run] at hr; obtain ⟨rfl, rfl⟩ := hr
+    exact ⟨h, by simp⟩
+  | cons op ops ih =>
+    unfold Sim.run at hr
+    split at hr
+    · cases hr
+    · rename_i s1 cl he
+      split at hr
+      · cases hr
+      · rename_i s2 cls2 he2
+        simp only [Option.some.injEq, Prod.mk.injEq] at hr
+        obtain ⟨rfl, rfl⟩ := hr
+        obtain ⟨h1, hc⟩ := (trace_step s op h).1 s1 cl he
+        obtain ⟨h2, hcs⟩ := ih s1 h1 cls2 he2
+        refine ⟨h2, ?_⟩
+        intro c hcm
+        simp only [List.mem_cons] at hcm
+        rcases hcm with rfl | hcm
+        · exact hc
+        · exact hcs c hcm
+
+example : (Sim.run (⟨TreeList.empty, []⟩ : Sim Nat)
+    [.ins 5 0, .ins 3 1, .ins 8 2, .begin, .next 0, .next 0, .del 5, .ins 5 3, .del 8, .next 0, .ins 9 4,
+     .adv 0 4, .next 0, .next 0]).map (·.2) =
+    some [none, none, none, none, none, none, none, none, none, none, none, none, none, none] := by decide
+
+/-- the list-and-iterators part of `Sim.step` is the model's `World.step` (the function the C07 driver
+runs against the implementation) -/
+theorem sim_world (s : Sim α) (op : Op α) :
+    (s.step op).map (fun r => r.1.toWorld) = (s.toWorld.step op).map (·.1) := by
+  cases op with
+  | ins k p =>
+    simp only [Sim.step, World.step, Sim.toWorld]
+    cases s.list.insert k p <;> rfl
+  | del k =>
+    simp only [Sim.step, World.step, Sim.toWorld]
+    cases s.list.delete k with
+    | none => rfl
+    | some r =>
+      obtain ⟨l, f⟩ := r
+      cases f <;> simp [List.map_map, Function.comp_def]
+  | begin => simp [Sim.step, World.step, Sim.toWorld]
+  | next i =>
+    simp only [Sim.step, World.step, Sim.toWorld, List.getElem?_map]
+    cases s.its[i]? with
+    | none => rfl
+    | some q => obtain ⟨it, c⟩ := q; simp [List.map_set]
+  | adv i k =>
+    simp only [Sim.step, World.step, Sim.toWorld, List.getElem?_map]
+    cases s.its[i]? with
+    | none => rfl
+    | some q => obtain ⟨it, c⟩ := q; simp [List.map_set]
+
 
 end B6.Props.C07
